@@ -87,6 +87,8 @@ try:
     meta = json.load(open(os.path.join(src, "meta.json")))
 except Exception:
     pass
+if "initially_missed" in (json.load(open(os.path.join(dst, "meta.json"))) if os.path.exists(os.path.join(dst, "meta.json")) else {}):
+    meta["initially_missed"] = json.load(open(os.path.join(dst, "meta.json")))["initially_missed"]
 meta["confirmed_by_lead"] = {
     "repository_tests_with_change": res.get("tests"),
     "compiles": res.get("compiles"),
